@@ -104,7 +104,10 @@ def run_case(ri):
             dd = nd.Derivative(g, n=r['n'], method=r['m'], order=r['o'], full_output=True)
             xx = np.array(vals).reshape(shape)
             a1 = dd(xx, 2.0, t=1.0)
+            keep1 = np.array(a1[0], copy=True)
             a2 = dd(xx, -0.5)
+            if not np.array_equal(np.asarray(a1[0]), keep1, equal_nan=True):
+                probs.append('args: the array returned by the first call was changed by the second call of the same object')
             b2 = nd.Derivative(g, n=r['n'], method=r['m'], order=r['o'], full_output=True)(xx, -0.5)
         if not (same(a2[0], b2[0]) and same(a2[1].error_estimate, b2[1].error_estimate) and same(a2[1].f_value, b2[1].f_value)):
             probs.append('args: second call with other extra arguments on the same object gives %r, a fresh object %r' % (np.ravel(a2[0])[:3].tolist(), np.ravel(b2[0])[:3].tolist()))
